@@ -11,9 +11,18 @@ use serde_json::{json, Value as J};
 
 /// Ok(Some(frame)) built, Ok(None) refused with an error; Err = violation
 pub fn oracle(m: &Message) -> Result<Option<Vec<u8>>, (String, String)> {
+    oracle_with(m, None)
+}
+
+/// the same oracle when the builder has been used once before (for a message that was refused early, refused late, or
+/// produced a long frame): every emitted frame must still be well formed
+pub fn oracle_with(m: &Message, before: Option<&Message>) -> Result<Option<Vec<u8>>, (String, String)> {
     let name = registry::variant_name(m);
     let r = catch(|| {
         let mut b = MessageBuilder::new();
+        if let Some(d) = before {
+            let _ = b.build_message(d).map(|f| f.len());
+        }
         b.build_message(m).map(|f| f.to_vec()).map_err(|e| format!("{:?}", e))
     });
     let r = match r {
@@ -69,7 +78,7 @@ pub fn run(ctx: &Ctx, replay: Option<&J>) -> CheckResult {
         sweep: every numeric leaf of two bases per type set to each of 15 extreme values / type MIN / type MAX; (3) hostile typed constructors: MSM with satellite \
         0/65/255, unknown signal, duplicate satellite/cell, mismatching rows, >64 mask cells; 1059/1065 with 64 satellites and >31 entries per satellite; \
         Empty/Corrupt/MsgNotSupported. oracle (catch_unwind): Err or a frame of 8..=1029 bytes, 0xD3, zero reserved bits, length field == payload size, first 12 payload \
-        bits == the variant's number, checksum == independent CRC-24Q; wire-less variants refused. both build profiles. non-trivial = >=1 out-of-domain op or full list; \
+        bits == the variant's number, checksum == independent CRC-24Q; wire-less variants refused; every recipe is also built on a builder that was used once before (refused early / refused late / long frame) with the same frame oracle. both build profiles. non-trivial = >=1 out-of-domain op or full list; \
         distinct = hash of the value tree"
         .to_string();
     let assumptions = vec![
@@ -81,10 +90,11 @@ pub fn run(ctx: &Ctx, replay: Option<&J>) -> CheckResult {
         ev.eval();
         let mut vs = Vec::new();
         if let Some(tree) = c.get("value").and_then(Value::from_json) {
+            let before = c.get("builder_used_before_for").and_then(Value::from_json).and_then(|t| value_to_message(&t).ok());
             match value_to_message(&tree) {
                 Ok(m) => {
-                    if let Err((sig, msg)) = oracle(&m) {
-                        vs.push(viol(sig, msg, &tree));
+                    if let Err((sig, msg)) = oracle_with(&m, before.as_ref()) {
+                        vs.push(Violation { property: "C09".into(), signature: sig, message: msg, case: c.clone() });
                     }
                 }
                 Err(e) => ev.notes.push(format!("replay value does not deserialise: {}", e)),
@@ -305,6 +315,8 @@ pub fn run(ctx: &Ctx, replay: Option<&J>) -> CheckResult {
         }
     }
     // (1) proptest recipes
+    let pool = crate::checks::c12::pool(ctx.seed);
+    let dist = crate::checks::c12::disturbers(ctx.seed);
     let cases = ctx.n(400_000, 12_000_000);
     let (pev, pvs) = pt_run(
         ctx,
@@ -322,7 +334,14 @@ pub fn run(ctx: &Ctx, replay: Option<&J>) -> CheckResult {
                     return Ok(());
                 }
             };
-            let res = oracle(m);
+            let mut res = oracle(m);
+            if res.is_ok() {
+                // one-step builder history: the same message on a builder that was used before
+                let d = &pool[dist[(hash_str(&format!("{:?}", r.ops)) % dist.len() as u64) as usize]];
+                if let Err((sig, msg)) = oracle_with(m, Some(&d.msg)) {
+                    res = Err((format!("{}(after:{})", sig, d.label.split('/').nth(1).unwrap_or(&d.label).chars().filter(|c| c.is_ascii_alphabetic() || *c == '-').collect::<String>()), format!("builder used before for [{}]: {}", d.label, msg)));
+                }
+            }
             if let (Ok(built), Some(ev)) = (&res, ev) {
                 let ood = b.classes.iter().any(|c| c.out_of_domain());
                 if ood {
@@ -343,7 +362,13 @@ pub fn run(ctx: &Ctx, replay: Option<&J>) -> CheckResult {
         },
         |r| {
             let b = run_recipe(corp, r, true);
-            json!({"kind":"message-value","number":b.number,"ops":b.classes.iter().map(|c| c.name()).collect::<Vec<_>>(),"value":b.tree.to_json()})
+            let d = &pool[dist[(hash_str(&format!("{:?}", r.ops)) % dist.len() as u64) as usize]];
+            let fresh_ok = b.message.as_ref().map(|m| oracle(m).is_ok()).unwrap_or(true);
+            if fresh_ok {
+                json!({"kind":"message-value","number":b.number,"ops":b.classes.iter().map(|c| c.name()).collect::<Vec<_>>(),"value":b.tree.to_json(),"builder_used_before_for":d.tree.to_json(),"before_label":d.label})
+            } else {
+                json!({"kind":"message-value","number":b.number,"ops":b.classes.iter().map(|c| c.name()).collect::<Vec<_>>(),"value":b.tree.to_json()})
+            }
         },
     );
     ev.merge(pev);
